@@ -33,6 +33,8 @@ pub enum InItem {
 	Bytes(Vec<u8>),
 	/// `receive()` fails with this error text.
 	Err(String),
+	/// a WebSocket pong
+	Pong,
 }
 
 #[derive(Default)]
@@ -64,6 +66,12 @@ pub struct WireState {
 	pub fault: Option<Fault>,
 	pub fault_fired_stamp: Option<u64>,
 	pub fault_fired_vtime: Option<tokio::time::Instant>,
+	/// A broken connection is broken both ways: once a `send` has failed, nothing the peer pushes arrives any more.
+	pub silent_after_send_fail: bool,
+	/// `receive()` may deliver a message in two pieces (not cancel-safe in between)
+	pub rx_split: bool,
+	pub pings_sent: u64,
+	pub peer_silent: bool,
 }
 
 #[derive(Debug, Clone)]
@@ -72,6 +80,8 @@ pub enum Fault {
 	SendError,
 	/// This item is put in front of / behind whatever is queued for `receive()`.
 	Recv { item: InItem, front: bool },
+	/// The peer goes silent: sends keep succeeding, nothing (not even a pong) arrives any more.
+	Silence,
 }
 
 impl WireState {
@@ -86,6 +96,10 @@ impl WireState {
 				match f {
 					Fault::SendError => {
 						self.fail_send_at = Some(self.send_count);
+					}
+					Fault::Silence => {
+						rt::probe("fault.peer_silent");
+						self.peer_silent = true;
 					}
 					Fault::Recv { item, front } => {
 						self.pushed += 1;
@@ -115,6 +129,7 @@ impl Wire {
 	pub fn new() -> (Wire, Tx, Rx) {
 		let w = Wire::default();
 		w.0.lock().unwrap().max_send_yield = 2;
+		w.0.lock().unwrap().rx_split = true;
 		(w.clone(), Tx(w.clone()), Rx(w))
 	}
 
@@ -144,10 +159,17 @@ impl Wire {
 		w.pushed += 1;
 		let seq = w.pushed;
 		let d = match &item {
+			InItem::Pong => format!("#{seq} PONG"),
 			InItem::Text(t) => format!("#{seq} {t}"),
 			InItem::Bytes(b) => format!("#{seq} bytes {}", String::from_utf8_lossy(b)),
 			InItem::Err(e) => format!("#{seq} ERR {e}"),
 		};
+		if (w.silent_after_send_fail && w.send_failed_stamp.is_some()) || w.peer_silent {
+			rt::event("peer-push-lost", d);
+			rt::probe("fault.silent_after_send_error");
+			w.seam_tick();
+			return seq;
+		}
 		rt::event("peer-push", d);
 		w.inbox.push_back((seq, item));
 		if let Some(wk) = w.rx_waker.take() {
@@ -223,6 +245,25 @@ impl TransportSenderT for Tx {
 		}
 	}
 
+	fn send_ping(&mut self) -> impl Future<Output = Result<(), TErr>> + Send {
+		let wire = self.0.clone();
+		async move {
+			rt::yield_n(rt::draw("ping-yield", 2)).await;
+			let mut w = wire.lock();
+			if w.fail_send_at.is_some_and(|k| w.send_count >= k) {
+				rt::event("fault-ping-error", "");
+				return Err(TErr("injected send error (ping)".into()));
+			}
+			w.pings_sent += 1;
+			rt::event("tx-ping", "");
+			rt::probe("client_ping_sent");
+			drop(w);
+			// the peer answers every ping it sees
+			wire.push(InItem::Pong);
+			Ok(())
+		}
+	}
+
 	fn close(&mut self) -> impl Future<Output = Result<(), TErr>> + Send {
 		let wire = self.0.clone();
 		async move {
@@ -270,29 +311,78 @@ impl Drop for Rx {
 	}
 }
 
-struct Recv(Wire);
+/// `receive()` is not cancel-safe, like a real WebSocket receive: a message may arrive in two pieces (a few polls
+/// or a few virtual milliseconds apart), and a future dropped in between takes the first piece with it.
+struct Recv {
+	wire: Wire,
+	held: Option<(u64, InItem)>,
+	yields_left: u32,
+	gap: Option<Pin<Box<tokio::time::Sleep>>>,
+}
 impl Future for Recv {
 	type Output = Result<ReceivedMessage, TErr>;
-	fn poll(self: Pin<&mut Self>, cx: &mut Context<'_>) -> Poll<Self::Output> {
-		let mut w = self.0.lock();
-		match w.inbox.pop_front() {
-			Some((seq, item)) => {
-				let st = rt::event("rx-deliver", format!("#{seq}"));
-				w.delivered.push((seq, st, item.clone()));
-				w.seam_tick();
-				Poll::Ready(match item {
-					InItem::Text(t) => Ok(ReceivedMessage::Text(t)),
-					InItem::Bytes(b) => Ok(ReceivedMessage::Bytes(b)),
-					InItem::Err(e) => {
-						rt::probe("fault.recv_error");
-						Err(TErr(e))
+	fn poll(mut self: Pin<&mut Self>, cx: &mut Context<'_>) -> Poll<Self::Output> {
+		let this = &mut *self;
+		if this.held.is_none() {
+			let mut w = this.wire.lock();
+			match w.inbox.pop_front() {
+				Some(x) => {
+					let split = w.rx_split;
+					drop(w);
+					this.held = Some(x);
+					if split {
+						match rt::draw("rx-split", 6) {
+							0..=3 => {}
+							4 => this.yields_left = rt::draw_range("rx-split-yields", 1, 2),
+							_ => {
+								let ms = rt::draw_range("rx-split-ms", 1, 15) as u64;
+								this.gap = Some(Box::pin(tokio::time::sleep(std::time::Duration::from_millis(ms))));
+							}
+						}
+						if this.yields_left > 0 || this.gap.is_some() {
+							rt::probe("rx_split");
+						}
 					}
-				})
+				}
+				None => {
+					w.rx_waker = Some(cx.waker().clone());
+					return Poll::Pending;
+				}
 			}
-			None => {
-				w.rx_waker = Some(cx.waker().clone());
-				Poll::Pending
+		}
+		if this.yields_left > 0 {
+			this.yields_left -= 1;
+			cx.waker().wake_by_ref();
+			return Poll::Pending;
+		}
+		if let Some(g) = this.gap.as_mut() {
+			if g.as_mut().poll(cx).is_pending() {
+				return Poll::Pending;
 			}
+			this.gap = None;
+		}
+		let (seq, item) = this.held.take().unwrap();
+		let mut w = this.wire.lock();
+		let st = rt::event("rx-deliver", format!("#{seq}"));
+		w.delivered.push((seq, st, item.clone()));
+		w.seam_tick();
+		Poll::Ready(match item {
+			InItem::Text(t) => Ok(ReceivedMessage::Text(t)),
+			InItem::Bytes(b) => Ok(ReceivedMessage::Bytes(b)),
+			InItem::Pong => Ok(ReceivedMessage::Pong),
+			InItem::Err(e) => {
+				rt::probe("fault.recv_error");
+				Err(TErr(e))
+			}
+		})
+	}
+}
+
+impl Drop for Recv {
+	fn drop(&mut self) {
+		if let Some((seq, _)) = self.held.take() {
+			rt::event("rx-cancelled-mid-message", format!("#{seq} is lost with the dropped receive future"));
+			rt::probe("rx_cancelled_mid_message");
 		}
 	}
 }
@@ -301,7 +391,7 @@ impl TransportReceiverT for Rx {
 	type Error = TErr;
 
 	fn receive(&mut self) -> impl Future<Output = Result<ReceivedMessage, TErr>> + Send {
-		Recv(self.0.clone())
+		Recv { wire: self.0.clone(), held: None, yields_left: 0, gap: None }
 	}
 }
 
@@ -371,6 +461,24 @@ pub fn method_notif(method: &str, params: Option<&Value>) -> String {
 /// Render a client error compactly and stably for logs/oracles.
 pub fn err_str(e: &jsonrpsee_core::client::Error) -> String {
 	format!("{e:?}")
+}
+
+/// Drawn client ping configuration: `None` most of the time; otherwise short periods on the virtual clock with a
+/// failure budget that is never used up, so that the ticks only perturb the background tasks' select loops.
+/// Returns the request timeout to use with it (short, so that a stalled call costs few ticks).
+pub fn draw_ping() -> (Option<jsonrpsee_core::client::async_client::PingConfig>, std::time::Duration) {
+	use std::time::Duration;
+	if !rt::chance("client_pings", 1, 5) {
+		return (None, Duration::from_secs(60));
+	}
+	rt::probe("client_pings_enabled");
+	let ping = *rt::pick("ping_interval_ms", &[7u64, 40, 3000]);
+	let inactive = *rt::pick("inactive_limit_ms", &[5u64, 30, 2000]);
+	let cfg = jsonrpsee_core::client::async_client::PingConfig::new()
+		.ping_interval(Duration::from_millis(ping))
+		.inactive_limit(Duration::from_millis(inactive))
+		.max_failures(usize::MAX);
+	(Some(cfg), Duration::from_secs(3))
 }
 
 pub const PLACEHOLDER: &str = "Error reason could not be found";
